@@ -17,7 +17,7 @@ fi
 git -C $WT apply $SRC/patch.diff; echo "APPLY: clean"
 demo=$(ls $SRC/test_demo*.py 2>/dev/null | head -1)
 if [ -f $SRC/pytest.ini ]; then CFG="-c $SRC/pytest.ini"; else CFG=""; fi
-run_demo() { (cd $WT && timeout 900 /venv/bin/python -m pytest -q -p no:cacheprovider $CFG --rootdir $WT $demo 2>&1 | tail -1) ; }
+run_demo() { (cd $WT && timeout 900 /venv/bin/python -m pytest -q -p no:cacheprovider $CFG --rootdir $WT $demo 2>&1 | grep -E "[0-9]+ (passed|failed|error)" | tail -1) ; }
 DW=$(run_demo); echo "--- demo WITH change: $DW"
 git -C $WT checkout -- .
 DO=$(run_demo); echo "--- demo WITHOUT change: $DO"
@@ -35,6 +35,7 @@ P
 echo "--- baseline WITH change: $BL"
 : > $OUT/checks.txt
 for prop in $P "$@"; do
+  [ "$prop" = "-" ] && continue
   echo "--- our quick check $prop against the change:"
   (cd /verif && VERIF_REPO=$WT VERIF_OUT=$OUT timeout 2400 /venv/bin/python -m sim check $prop --tier quick > $OUT/check-$prop.log 2>&1; echo "$prop exit=$?" >> $OUT/checks.txt)
   grep -v "^KNOWN" $OUT/check-$prop.log | cut -c1-260 | tail -4
